@@ -77,7 +77,7 @@ def rule_count_fields(prog, res):
             for i, s in enumerate(f.blocks[b]["stmts"]):
                 if s["k"] == "assign" and s["place"]["local"] == 0 and s["rv"]["k"] == "aggregate" and s["rv"].get("vname") == "Err":
                     v = fa.rv_term(s["rv"], (b, i))
-                    _ev = err_variant(v)
+                    _ev = err_variant(v, fa)
                     if _ev is not None:
                         errs.add(_ev)
         res.ob("Q-mask", "%s | entries that cannot be represented are refused with OutOfRange" % num, errs == {"OutOfRange"}, str(sorted(errs)), f.loc)
@@ -810,7 +810,7 @@ def rule_1230(prog, res):
         for i, s in enumerate(fe.blocks[b]["stmts"]):
             if s["k"] == "assign" and s["place"]["local"] == 0 and s["rv"]["k"] == "aggregate" and s["rv"].get("vname") == "Err":
                 v = ea.rv_term(s["rv"], (b, i))
-                _ev = err_variant(v)
+                _ev = err_variant(v, ea)
                 if _ev is not None:
                     errs.add(_ev)
     res.ob("Q-1230", "1230 | an entry with any other signal is refused with InvalidSignalId", errs == {"InvalidSignalId"}, str(sorted(errs)), fe.loc)
